@@ -8,7 +8,7 @@ CONSTANTS
   Small = TRUE
   Avoid = FALSE
   SimK = 0
-  Acts = {"oset", "rebind", "batch", "ldel"}
+  Acts = {"oset", "rebind", "batch", "ldel", "ctor"}
 CONSTRAINT LevelBound
 VIEW view
 INVARIANT Conforms
